@@ -189,8 +189,15 @@ def render(case):
 
 
 def lean_obj(case):
-    objs, _ = build(case)
+    objs, refs = build(case)
     order = ORDERS[case["variant"]]
+    # the reference attributes hold the identities of their targets (the state after loading, as far as the
+    # statement determines it): the model must not follow them (C10_no_ref / C10_heap_frame)
+    held = {}
+    for r in refs:
+        tgt = spec_fqn(objs, r["owner"], r["name"], r["t"])
+        if tgt is not None:
+            held.setdefault((r["owner"], r["attr"]), []).append(tgt)
 
     def go(i):
         o = objs[i]
@@ -207,14 +214,14 @@ def lean_obj(case):
             node = o["node"]
             mem = [x for x in kids if x["k"] == "member"]
             nmain = 1 if node.get("main") is not None else 0
-            attrs = [{"p": 0}, {"r": []}, {"r": []},
+            attrs = [{"p": 0}, {"r": held.get((i, "friend"), [])}, {"r": held.get((i, "likes"), [])},
                      {"c": [go(x["id"]) for x in mem[:nmain]]},
                      {"c": [go(x["id"]) for x in mem[nmain:]]},
                      {"c": [go(x["id"]) for x in kids if x["k"] == "ref"]}]
         elif k == "member":
             attrs = [{"p": 0}]
         else:
-            attrs = [{"r": []}]
+            attrs = [{"r": held.get((i, "target"), [])}]
         return {"id": i, "cls": KNUM[k], "name": o["name"], "attrs": attrs}
 
     return go(0)
@@ -284,12 +291,14 @@ class Prop(Check):
             "only) with friend / likes / ref references between them x in-text dotted names (valid, spurious through "
             "parent or reference edges, unknown) x ~30 direct provider calls per loaded model (walks of <=4 steps over "
             "containment / parent / reference edges from the referencing object's ancestors, random and malformed "
-            "names, all target classes); non-trivial = the case has a spurious candidate: a dotted name that would "
+            "names, all target classes); 35% of the cases give groups an optional name, an unnamed group then has "
+            "the name value '' and names with empty parts (a..b, .a) walk through it; non-trivial = the case has a spurious candidate: a dotted name that would "
             "resolve if `parent` or reference attributes were followed but that matches no containment chain of the "
             "target type (cases needing the outward search with shadowing / multi-part chains are counted separately)")
     MODELLED = ("hand-modelled: scoping/providers.py FQN.__call__ (_find_referenced_obj, _find_obj_fqn, find_obj after "
                 "the repair: containment attributes only) as Link.fqn/findReferenced/findObjFqn/walk/findObj, parent "
-                "links as Link.pathTo; tie X: target identity per reference / Unknown object + offending reference, "
+                "links as Link.pathTo, fqn_name.split('.') as Link.splitDots; the model tree carries the identities held by "
+                "the reference attributes; tie X: target identity per reference / Unknown object + offending reference, "
                 "direct provider calls; not exhibited: scope_redirection_logic, Postponed results, multi-model "
                 "variants (FQNImportURI), user classes overriding __bool__/__eq__")
     ASSUMPTIONS = [
